@@ -60,4 +60,34 @@ def pubConsistent (T : SymTab) : Bool :=
      | some p => p.name == s.name && p.named == s.named && p.pub == s.pub && p.hasKind
      | none => false))
 
+/-! ## `ts_language_symbol_type` and the listing of node kinds -/
+
+inductive SymType where
+  | regular | anonymous | supertype | auxiliary
+  deriving DecidableEq, Repr
+
+/-- port of `ts_language_symbol_type` (on the table's metadata) -/
+def symbolType (s : SymInfo) : SymType :=
+  if s.named && s.visible then .regular
+  else if s.visible then .anonymous
+  else if s.supertype then .supertype
+  else .auxiliary
+
+/-- the three questions the bindings ask (`node_kind_is_visible / is_named / is_supertype`) -/
+def kindFlags (s : SymInfo) : Bool × Bool × Bool :=
+  (symbolType s == .regular || symbolType s == .anonymous, symbolType s == .regular, symbolType s == .supertype)
+
+/-- decidable, on a symbol table and the (kind, named, is-supertype-entry) triples of a node-types
+file: every symbol a tree node can carry (visible, not the name of an inlined rule) has an entry, and
+every supertype symbol a supertype entry.  (The converse is not required: the file may list a kind
+that cannot occur, e.g. an inner alias of an inlined rule that is always overridden by an outer one.) -/
+def kindsListed (T : SymTab) (inlined : List (List Nat)) (entries : List (List Nat × Bool × Bool)) : Bool :=
+  T.syms.all (fun s =>
+    (!(s.visible && !inlined.contains s.name) || entries.any (fun e => e.1 == s.name && e.2.1 == s.named && !e.2.2)) &&
+    (!(s.supertype && !s.visible) || entries.any (fun e => e.1 == s.name && e.2.2)))
+
+/-- entries whose kind no symbol carries (informational) -/
+def spuriousEntries (T : SymTab) (entries : List (List Nat × Bool × Bool)) : List (List Nat × Bool × Bool) :=
+  entries.filter (fun e => !T.syms.any (fun s => s.name == e.1 && (if e.2.2 then s.supertype && !s.visible else s.visible && s.named == e.2.1)))
+
 end TsVerif.C16
